@@ -216,9 +216,9 @@ func (ip *Interp) execBodyStmts(fd *FuncDef, body *scope, m *Module, isModule bo
 			}
 		}
 	}
-	inner := ip.newScope(body, "block", body.frame)
-	defer ip.endScope()
-	last, isExpr, err := ip.execBlock(fd.Body, inner)
+	// the statements of a body are in the same block as its 输入 names and its definitions
+	// ("declaring a name twice in the same block is an error"): no scope of their own
+	last, isExpr, err := ip.execBlock(fd.Body, body)
 	if err != nil {
 		if c, ok := err.(*ctl); ok {
 			panic(&Unspec{c.kind + " outside a loop of the same body (U3)"})
